@@ -127,7 +127,7 @@ def translate():
         i += 1
     rest = body[i:]
     need(len(rest) == 3, "expected object block, declared-class call and return (in some order), found %d statements" % len(rest))
-    need(isinstance(rest[2], ast.If), "the function does not end with the return selection")
+    need(isinstance(rest[2], (ast.If, ast.Return)), "the function does not end with the return selection")
     order = []
     facts = {}
     for st in rest[:2]:
@@ -158,11 +158,15 @@ def translate():
         ret = "ROwnFirst"
     elif ru == "if return_value_grammar is not None:\n    return return_value_grammar\nelse:\n    return return_value_current":
         ret = "RDeclFirst"
+    elif ru == "return return_value_current or return_value_grammar":
+        ret = "ROwnTruthy"
+    elif ru == "return return_value_grammar or return_value_current":
+        ret = "RDeclTruthy"
     else:
         raise TranslateError("return selection changed: " + ru[:120])
     # no other assignment to the two result variables, no other return
     rets = [n for n in ast.walk(fn) if isinstance(n, ast.Return)]
-    need(len(rets) == (3 if match_skip else 2), "unexpected return statement")
+    need(len(rets) == (1 if match_skip else 0) + (2 if isinstance(r, ast.If) else 1), "unexpected return statement")
     b = lambda x: "true" if x else "false"  # noqa: E731
     lines = ["From TxV Require Import Core.Base Model.Proc.",
              "Definition src_facts : walk_facts :=",
